@@ -25,4 +25,15 @@ theorem calls_known : scopeCallsKnown .c10 = true := by decide
 /-- the scope is not empty -/
 example : (classesOf .c10).length > 0 := by decide
 
+/-- a stop before OpenSent: `idle`, `connect`, `active` leave for `disabled`; `connect` first cancels the dial, waits for
+its result (the dial goroutine is joined) and closes the connection it may carry -/
+theorem early_stop_paths :
+    (∀ fn ∈ ["idle", "connect", "active"], ∀ p ∈ pathsOf fn, p.guards.contains ("select recv f.closeCh", true) = true →
+      p.exit = "return" ∧ p.ret = ["disabledState"]) ∧
+    (∀ fn ∈ ["idle", "connect", "active"], (pathsOf fn).any (fun p => p.guards.contains ("select recv f.closeCh", true)) = true) ∧
+    (∀ p ∈ pathsOf "connect", p.guards.contains ("select recv f.closeCh", true) = true →
+      p.calls = ["f.cancelDialFn", "recv f.dialResultCh", "f.closeDialedConn", "f.connectRetryTimer.Stop"]) ∧
+    (selected "closeDialedConn" (fun g => if g = "dr!=nil&&dr.conn!=nil" then some true else none)).map (·.calls) = [["dr.conn.Close"]] := by
+  decide
+
 end CoreBGP.Props.PathTieC10
